@@ -1663,6 +1663,10 @@ class Backend:
                 # it assumes that it is in path, so always give it a full path.
                 tmp = i.get_outputs()[0]
                 i = os.path.join(self.get_custom_target_output_dir(i), tmp)
+            elif isinstance(i, build.CustomTargetIndex):
+                i = os.path.join(self.get_custom_target_output_dir(i), i.get_filename())
+                if target.absolute_paths or absolute_outputs:
+                    i = os.path.join(self.environment.get_build_dir(), i)
             elif isinstance(i, mesonlib.File):
                 i = i.rel_to_builddir(self.build_to_src)
                 if target.absolute_paths or absolute_outputs:
@@ -2102,7 +2106,7 @@ class Backend:
                         compiler += [k.absolute_path(self.source_dir, self.build_dir)]
                     elif isinstance(k, str):
                         compiler += [k]
-                    elif isinstance(k, (build.BuildTarget, build.CustomTarget)):
+                    elif isinstance(k, (build.BuildTarget, build.CustomTarget, build.CustomTargetIndex)):
                         compiler += k.get_outputs()
                     elif isinstance(k, programs.Program):
                         compiler += k.get_command()
